@@ -462,6 +462,11 @@ def run(rep):
                 rep.lost("T-IDENT-CLASS", "T-IDENT-CLASS/run#%d" % nid, "identifier predicate is a char-class expression", str(e)[:120])
         rep.check(nid >= 1, "T-IDENT-CLASS", "T-IDENT-CLASS/sites", tkf.sp, "the consume_while run that becomes Token::Identifier", str(nid))
 
+    # the identifier character class is part of the token grammar: when the tokeniser model (C05) covers it, it decides
+    core.import_rules(rep, "c05", {"TOK-MODEL"})
+    _tm = [i for i in rep.instances if i.rule == "TOK-MODEL"]
+    core.model_decides(rep, len(_tm) >= 140 and all(i.status == "discharged" for i in _tm), {"T-IDENT-CLASS"}, "identifier characters decided by the tokeniser model")
+
     # ---------------------------------------------------------------- T-CONJ
     # the entry vector: the one the and-group result is built from
     evs = {q.var_id(f["e"]) for n in walk(pm.body) if n.get("k") == "Adt" and n["adt"] == "parser::Expression" and n["variant"] == "BooleanGroup" and any(peel(g["e"]).get("variant") == "And" for g in n["fields"])
